@@ -15,7 +15,9 @@ O = G.OP
 S1 = bytes.fromhex("090909"); S2 = bytes.fromhex("3006020101020101") + b"\x01"; S3 = b"\xaa" * 64
 P1 = b"\x02" + b"\x11" * 32; P2 = b"\x03" + b"\x12" * 32; K = bytes.fromhex("0279be667ef9dcbbac55a06295ce870b07029bfcdb2dce28d959f2815b16f81798")
 X1 = b"\x15" * 32; X2 = b"\x16" * 32
-PAIRSETS = [[], [(S1, P1)], [(S1, P1), (S2, P2)], [(S3, X1)], [(S3, X1), (S1, P1)], [(S1, P1), (S1, P2)], [(b"", P1)]]
+PAIRSETS = [[], [(S1, P1)], [(S1, P1), (S2, P2)], [(S3, X1)], [(S3, X1), (S1, P1)], [(S1, P1), (S1, P2)], [(b"", P1)],
+            # one key listed with several signatures, in both orders
+            [(S1, P1), (S2, P1)], [(S2, P1), (S1, P1)], [(S1, P1), (S2, P1), (S3, P1)], [(S1, P1), (S2, P1), (S1, P2), (S2, P2)]]
 CMP = drivers.CMP_C01 + ["weight"]
 
 
@@ -57,6 +59,34 @@ def make_jobs(chk):
                         tc = sp.txctx(leafhash=b"\x07" * 32, preamble=True) if sv == "TAPSCRIPT" else sp.txctx()
                     jobs.append(SessionJob("p%d:%s:%s" % (n, name, sv), script, mk(sg, k, sg2, k2), fl, sv, cmds=["steps"], cmp=CMP, weight=500 if sv == "TAPSCRIPT" else 0,
                                            pretend=pairs, txctx=tc))
+    # whole spends set up by the tool (--tx/--txin) with a signature that is NOT valid but is listed for the key it is checked against:
+    # every spend type must then succeed (and an unrelated listed pair must change nothing)
+    import gen_spend, btc
+    for rep in range(2 if quick else 20):
+        for typ in ("p2pkh", "p2wpkh", "p2sh-p2wpkh", "p2tr-key", "p2tr-script"):
+            c = gen_spend.SpendCase(rng, typ, "valid", 1, 0, 0)
+            if typ == "p2pkh":
+                ops = list(btc.script_iter(c.tx.vin[0].script_sig)); sig, key = ops[0][1], ops[1][1]
+                bad = sig[:9] + bytes([sig[9] ^ 1]) + sig[10:]
+                c.tx.vin[0].script_sig = G.push(bad) + G.push(key)
+            elif typ in ("p2wpkh", "p2sh-p2wpkh"):
+                sig, key = c.tx.witness[0][0], c.tx.witness[0][1]
+                bad = sig[:9] + bytes([sig[9] ^ 1]) + sig[10:]
+                c.tx.witness[0][0] = bad
+            elif typ == "p2tr-key":
+                sig = c.tx.witness[0][0]; key = c.funding.vout[0].script_pubkey[2:]
+                bad = sig[:9] + bytes([sig[9] ^ 1]) + sig[10:]
+                c.tx.witness[0][0] = bad
+            else:
+                sig = c.tx.witness[0][0]
+                leaf = c.tx.witness[0][-2]
+                key = [t[1] for t in btc.script_iter(leaf) if t[1] and len(t[1]) == 32][0]
+                bad = sig[:9] + bytes([sig[9] ^ 1]) + sig[10:]
+                c.tx.witness[0][0] = bad
+            for pairs in ([(bad, key)], [(bad, P1)], [], [(S1, P1), (bad, key)]):
+                n += 1
+                jobs.append(SessionJob("pa%d:%s:%d" % (n, typ, len(pairs)), b"", [], STANDARD, "BASE", cmds=["steps"], cmp=[x for x in gen_spend.CMP_SPEND if x not in ("verdict", "digest")],
+                                       auto=True, pretend=pairs, txctx={"tx": c.tx.hex(), "txin": c.funding.hex(), "select": -1}))
     return jobs
 
 
